@@ -430,6 +430,67 @@ Proof.
   rewrite Z.sgn_mul. rewrite (Z.sgn_pos (2 ^ j)) by lia. lia.
 Qed.
 
+(** significands of at most MB+1 bits, over the WHOLE range (subnormal results and underflow
+    included): no first rounding happens, FloatEncoding::encode rounds once, to nearest even whatever
+    the mode of the number, and the result is flagged exact only if it is.  (Under a mode other than
+    HalfEven, or for the direction of the flag, subnormal results remain in the finding class.) *)
+Definition short_flag (P : enc_params) (s e : Z) (c : comparison) : option rounding :=
+  match c with
+  | Eq => None
+  | _ => if blen (Z.abs s) + e >? TOP_MAX P then Some (if s <? 0 then SubOne else AddOne) else Some NoOp
+  end.
+
+Theorem fbig2_to_float_short_normalized m s e :
+  s mod 2 <> 0 -> blen (Z.abs s) <= MB P + 1 ->
+  fbig2_to_float P m s e =
+    FR (fst (ieee_rne (fmt_of P) (fst (frac_of s e)) (snd (frac_of s e))))
+       (short_flag P s e (snd (ieee_rne (fmt_of P) (fst (frac_of s e)) (snd (frac_of s e))))).
+Proof.
+  intros Hodd Hb. assert (Hs : s <> 0) by (intros ->; apply Hodd; reflexivity).
+  unfold fbig2_to_float. rewrite normalize_id by (assumption || lia).
+  rewrite repr_round_exact by (rewrite dlen2_blen; exact Hb).
+  unfold into_float_internal, short_flag.
+  replace (e + blen (Z.abs s)) with (blen (Z.abs s) + e) by lia.
+  destruct (Z.gtb_spec (blen (Z.abs s) + e) (TOP_MAX P)) as [Ht|Ht].
+  - unfold ieee_rne. rewrite (ieee_round_normal_exact MHalfEven s e Hs Hb) by lia.
+    destruct (Z.gtb_spec (blen (Z.abs s) + e) (TOP_MAX P)) as [_|G]; [|lia].
+    destruct (s <? 0); reflexivity.
+  - rewrite <- (encode_correct P HMB HW HB HBp HT HU HN s e) by lia.
+    destruct (Z.ltb_spec e (- (BIAS P - 1) - MB P - (MB P + 1))) as [He|He].
+    + unfold encode_asis. destruct (Z.eqb_spec s 0) as [|_]; [contradiction|].
+      replace (W P - (W P - blen (Z.abs s)) + e) with (blen (Z.abs s) + e) by lia.
+      destruct (Z.gtb_spec (blen (Z.abs s) + e) (TOP_MAX P)) as [G|_]; [lia|].
+      destruct (Z.ltb_spec (blen (Z.abs s) + e) (UNDER P)) as [_|G]; [|lia].
+      destruct (s <? 0); reflexivity.
+    + destruct (encode_asis P s e) as [b c]. destruct c; reflexivity.
+Qed.
+
+Theorem fbig2_to_float_short m s e :
+  s <> 0 -> blen (Z.abs s) <= MB P + 1 ->
+  fbig2_to_float P m s e =
+    FR (fst (ieee_rne (fmt_of P) (fst (frac_of s e)) (snd (frac_of s e))))
+       (short_flag P s e (snd (ieee_rne (fmt_of P) (fst (frac_of s e)) (snd (frac_of s e))))).
+Proof.
+  intros Hs Hb.
+  pose proof (normalize_spec 2 ltac:(lia) s e) as Hnz.
+  assert (E0 : fbig2_to_float P m s e = fbig2_to_float P m (fst (normalize 2 s e)) (snd (normalize 2 s e))).
+  { unfold fbig2_to_float. destruct (normalize 2 s e) as [s0 e0]. cbn [fst snd].
+    destruct Hnz as [_ Hnz]. destruct (Hnz Hs) as (_ & Hodd & _).
+    rewrite (normalize_id 2 s0 e0) by (assumption || lia). reflexivity. }
+  rewrite E0. clear E0. destruct (normalize 2 s e) as [s0 e0]. cbn [fst snd].
+  destruct Hnz as [_ Hnz]. destruct (Hnz Hs) as (Hs0 & Hodd & j & Hj & He0 & Es). subst e0.
+  pose proof (pow2_pos j Hj) as HJ.
+  assert (Hbl : blen (Z.abs s) = blen (Z.abs s0) + j).
+  { rewrite Es, Z.abs_mul, (Z.abs_eq (2 ^ j)) by lia. apply blen_shift; lia. }
+  rewrite fbig2_to_float_short_normalized by (try assumption; lia).
+  assert (Hsg : (s <? 0) = (s0 <? 0)).
+  { rewrite Es. destruct (Z.ltb_spec (s0 * 2 ^ j) 0); destruct (Z.ltb_spec s0 0); try reflexivity; nia. }
+  unfold short_flag. rewrite Hbl, Hsg.
+  replace (blen (Z.abs s0) + j + e) with (blen (Z.abs s0) + (e + j)) by lia.
+  clear Hbl Hsg Hb Hs Hnz. subst s. unfold ieee_rne.
+  rewrite (ieee_round_dyadic_shift (fmt_of P) MHalfEven s0 j e Hs0 Hj). reflexivity.
+Qed.
+
 End ToFloat.
 
 (* ------------------------------------------------------------------ the two instances *)
@@ -521,3 +582,32 @@ Example fbig2_to_f64_below_normal_differs :
   blen (Z.abs (2 ^ 54 + 5)) + (-1077) = emin F64 + prec F64 - 1 /\
   fbig2_to_float P64 MHalfEven (2 ^ 54 + 5) (-1077) <> to_float_spec F64 MHalfEven (2 ^ 54 + 5) (-1077).
 Proof. vm_compute. split; [reflexivity | discriminate]. Qed.
+
+(** short significands over the whole range, instances *)
+Theorem fbig2_to_f64_short m s e : s <> 0 -> blen (Z.abs s) <= 53 ->
+  fbig2_to_float P64 m s e =
+    FR (fst (ieee_rne F64 (fst (frac_of s e)) (snd (frac_of s e))))
+       (short_flag P64 s e (snd (ieee_rne F64 (fst (frac_of s e)) (snd (frac_of s e))))).
+Proof.
+  intros Hs Hb. change F64 with (fmt_of P64).
+  apply (fbig2_to_float_short P64); [cbn; lia | cbn; lia | reflexivity | cbn; lia | reflexivity | reflexivity | left; reflexivity
+                                    | assumption | exact Hb].
+Qed.
+
+Theorem fbig2_to_f32_short m s e : s <> 0 -> blen (Z.abs s) <= 24 ->
+  fbig2_to_float P32 m s e =
+    FR (fst (ieee_rne F32 (fst (frac_of s e)) (snd (frac_of s e))))
+       (short_flag P32 s e (snd (ieee_rne F32 (fst (frac_of s e)) (snd (frac_of s e))))).
+Proof.
+  intros Hs Hb. change F32 with (fmt_of P32).
+  apply (fbig2_to_float_short P32); [cbn; lia | cbn; lia | reflexivity | cbn; lia | reflexivity | reflexivity | right; reflexivity
+                                    | assumption | exact Hb].
+Qed.
+
+Example fbig2_to_f32_short_examples :
+  fbig2_to_float P32 MHalfEven 3 (-151) = FR 1 (Some NoOp) /\
+  fbig2_to_float P32 MZero 3 (-151) = FR 1 (Some NoOp) /\
+  fbig2_to_float P32 MHalfEven 5 (-149) = FR 5 None /\
+  fbig2_to_float P32 MHalfEven (-1) (-151) = FR (2 ^ 31) (Some NoOp) /\
+  fst (ieee_rne F32 (fst (frac_of 3 (-151))) (snd (frac_of 3 (-151)))) = 1.
+Proof. vm_compute. repeat split; reflexivity. Qed.
